@@ -56,7 +56,8 @@ def grid_case(draw):
         L = draw(st.integers(size, 60))
     kind = draw(st.sampled_from(['uniform', 'jitter', 'near-uniform', 'random', 'random']))
     scale = 10.0 ** draw(st.floats(-2, 2))
-    centre = draw(st.sampled_from([0.0, 1.0, -3.0, 50.0])) * scale
+    # far offsets (|x| / h up to 2e10, e.g. time stamps): node differences stay exact, x itself has few spare bits
+    centre = draw(st.sampled_from([0.0, 1.0, -3.0, 50.0, 1e5, -1e9])) * scale
     if kind == 'uniform':
         h = scale * draw(st.floats(0.05, 1.0))
         x = [centre + h * i for i in range(L)]
@@ -112,7 +113,7 @@ class C16(Prop):
     title = 'fd_derivative is exact on polynomials at every point of any grid'
     rule = ('Hypothesis draws n in 1..6, m in 1..4 (mm = n//2+m), a grid of 2mm+2..60 points '
             '(minimal length, minimal+1, or any), uniform / jittered (30 %) / near-uniform (1e-9..1e-3) / '
-            'random with gaps log-uniform over two decades, increasing or decreasing, overall scale 1e-2..1e2 and offset up to 50 scales; '
+            'random with gaps log-uniform over two decades, increasing or decreasing, overall scale 1e-2..1e2 and offset 0, 1, -3, 50, 1e5 or -1e9 scales (grid far from the origin); '
             'a polynomial of degree 0..2mm (2mm+1 for the docstring boundary-stencil clause) with '
             'coefficients k/den, |k| <= 9, den in {1,2,4}, in the variable (t - x[j])/s, j drawn '
             'near either boundary, at the boundary/interior seam or anywhere, s = power of two near '
@@ -217,6 +218,7 @@ class C16(Prop):
         ctx.track('info: err/(eps*sum|W fx|) (design factor, not asserted)', worst['sharp'], summ)
         ctx.count('kind=%s' % case['kind'])
         ctx.count('direction=%s' % case['direction'])
+        ctx.count('offset/gap=%s' % ('>=1e4' if abs(x[0]) >= 1e4 * abs(x[1] - x[0]) else '<1e4'))
         ctx.count('n=%d' % n)
         ctx.count('m=%d' % m)
         ctx.count('len=%s' % ('2mm+2' if L == size else '2mm+3' if L == size + 1 else '>2mm+3'))
